@@ -158,12 +158,12 @@ def regen_makefile():
             raise BuildError(out)
 
 
-def coq_make(targets, timeout=1500, jobs=None):
+def coq_make(targets, timeout=1500, jobs=None, keep_going=False):
     """make the given .vo targets (paths relative to coq/). Returns (ok, log)."""
     lock = _lock()
     try:
         regen_makefile()
-        cmd = ['timeout', str(timeout), 'make', f'-j{jobs or min(8, NCPU)}'] + list(targets)
+        cmd = ['timeout', str(timeout), 'make', f'-j{jobs or min(8, NCPU)}'] + (['-k'] if keep_going else []) + list(targets)
         rc, out = sh(cmd, cwd=COQ, timeout=timeout + 30)
         return rc == 0, out
     finally:
